@@ -63,16 +63,16 @@ def main(tier):
     ck.assumptions += ['per-line step of format (parser TrimLeft + processLine); line bytes printable ASCII; one job per length and indentation depth',
                        'file-level composition (same classified lines before and after => same regex) is an argument, not a query; the whole-file before/after comparison is part of the translation-validation family']
     jobs = [('cmd.VerifC10LineContent', dict(fixlen={'line': L}, params={'indent': d}, unwind=N + 12, exclude=exclude, timeout_ms=120000, terminal_obligations=()))
-            for L in range(0, N + 1) for d in (0, 1)]
-    rs, viol = ck.run('line-content', jobs, job_timeout=600 if tier == 'quick' else 3000, bounds={'line_len': '0..%d' % N, 'indent': [0, 1]})
+            for L in range(0, N + 1) for d in (0, 1) if not (tier == 'quick' and d == 1 and L == N)]
+    rs, viol = ck.run('line-content', jobs, job_timeout=600 if tier == 'quick' else 3000, bounds={'line_len': '0..%d (depth 1: 0..%d)' % (N, N - 1 if tier == 'quick' else N), 'indent': [0, 1]})
     ck.triage(viol)
     # meaning: ANY ASCII line (control bytes included): same classification by the compiler before and after, entries byte-identical
-    M = 10 if tier == 'quick' else 14
+    M = 9 if tier == 'quick' else 14
     jobs = [('cmd.VerifC10LineMeaning', dict(fixlen={'line': L}, params={'indent': d}, unwind=M + 16, exclude=exclude_meaning, timeout_ms=120000, terminal_obligations=(), hooks={'fixed_map_order': True}))
             for L in range(0, M + 1) for d in (0, 1)]
     rs, viol = ck.run('line-meaning', jobs, job_timeout=420 if tier == 'quick' else 2400, bounds={'line_len': '0..%d' % M, 'alphabet': 'ASCII 0x01..0x7f without newline', 'indent': [0, 1]})
     ck.triage(viol)
-    jobs = [('cmd.VerifC10RejectedLine', dict(fixlen={'line': L}, unwind=60, timeout_ms=120000, terminal_obligations=(), hooks={'fixed_map_order': True})) for L in range(3, 7)]
-    rs, viol = ck.run('rejected-line', jobs, bounds={'line_len': '3..6 over {# ! < > blank a}'})
+    jobs = [('cmd.VerifC10RejectedLine', dict(fixlen={'line': L}, unwind=60, timeout_ms=120000, terminal_obligations=(), hooks={'fixed_map_order': True, 'compact': True})) for L in range(4, 7)]
+    rs, viol = ck.run('rejected-line', jobs, bounds={'line_len': '4..6 over {# ! < > blank a}'})
     ck.triage(viol)
     return ck.finish()
